@@ -701,12 +701,16 @@ func TestC09(t *testing.T) {
 		}
 
 		// (c) the same operation on the frame and on its rebuild gives Equal results
-		op := rapid.SampledFrom([]string{"filter", "sort", "sort-ties", "slice", "select", "apply", "eval", "distinct", "aggregate"}).Draw(t, "metaop")
+		op := rapid.SampledFrom([]string{"filter", "filter", "sort", "sort-ties", "slice", "select", "apply", "eval", "distinct", "aggregate"}).Draw(t, "metaop")
 		var ra, rb qframe.QFrame
 		canon := func(q qframe.QFrame) qframe.QFrame { return q }
 		switch op {
 		case "filter":
-			cl := hx.GenClause(t, tab, 2, hx.ClauseOpt{})
+			copt := hx.ClauseOpt{}
+			if rapid.IntRange(0, 2).Draw(t, "sparseclause") == 0 {
+				copt.Sparse = "id" // clauses whose sub-clauses keep a row or two each (the id column holds unique values)
+			}
+			cl := hx.GenClause(t, tab, 2, copt)
 			what += "op filter " + cl.String()
 			k := hx.KindMap(tab)
 			ra, rb = d.QF.Filter(cl.Build(k)), rebuild.Filter(cl.Build(k))
